@@ -530,7 +530,7 @@ func (db *DB) parseDataFiles(dataFileIds []int) (unconfirmedRecords []*Record, c
 				}
 
 				e = nil
-				if db.opt.EntryIdxMode == HintKeyValAndRAMIdxMode {
+				if db.opt.EntryIdxMode == HintKeyValAndRAMIdxMode || entry.Meta.ds != DataStructureBPTree {
 					e = &Entry{
 						Key:   entry.Key,
 						Value: entry.Value,
